@@ -14,7 +14,7 @@ func TestSim(t *testing.T) {
 	code := kernel.Main("tree", map[string]kernel.Engine{
 		"C23": runBptree,
 		"C24": runBptree,
-		"C25": runBptree,
+		"C25": runC25,
 		"C26": runC26,
 	})
 	if code != 0 {
